@@ -196,13 +196,14 @@ fn check_mutated(input: &super::c01::Mutated, case: &mut Case) -> Result<(), Fai
 pub fn def() -> CheckDef {
     CheckDef {
         id: "C11",
-        rule: "parser-accepted byte strings from: (1) reference encodings of packets with arbitrary (foreign) compression, unknown types, empty RDATA, any 4-bit opcode, any response code (12-bit with EDNS), OPT at any additional index, stray OPT records in any section (also twice, also a twin of the EDNS record differing only in its TTL flag bits), NSEC records with windows out of order (accepted or not); (1b) suffix-sharing messages with filler that puts names beyond offset 16383; (1c) 200..700 records whose owner (and NS target) is a pointer to one 64..255-byte name: 5 KB messages whose plain form reaches 360 KB; (2) all 65536 header words on a valid compressed message; (3) the accepted part of mutated encodings. Oracle: parse -> build_bytes_vec / build_bytes_vec_compressed succeeds -> parse succeeds -> every observable field equal; for a quarter of the accepted inputs the writer-based entry points (all writer kinds of C04) must produce the same bytes (id, flags, opcode(), rcode(), EDNS, sections, every record field). Non-trivial = accepted by the parser and >= 1 entry (mutated: >= 1 mutation)",
+        rule: "parser-accepted byte strings from: (1) reference encodings of packets with arbitrary (foreign) compression, unknown types, empty RDATA, any 4-bit opcode, any response code (12-bit with EDNS), OPT at any additional index, stray OPT records in any section (also twice, also a twin of the EDNS record differing only in its TTL flag bits), NSEC records with windows out of order (accepted or not); (1b) suffix-sharing messages with filler that puts names beyond offset 16383; (1c) 200..700 records whose owner (and NS target) is a pointer to one 64..255-byte name: 5 KB messages whose plain form reaches 360 KB; (1d) names of 250..=258 wire octets as question, owner and RDATA name, in full and through a pointer (what is accepted must survive); (2) all 65536 header words on a valid compressed message; (3) the accepted part of mutated encodings. Oracle: parse -> build_bytes_vec / build_bytes_vec_compressed succeeds -> parse succeeds -> every observable field equal; for a quarter of the accepted inputs the writer-based entry points (all writer kinds of C04) must produce the same bytes (id, flags, opcode(), rcode(), EDNS, sections, every record field). Non-trivial = accepted by the parser and >= 1 entry (mutated: >= 1 mutation)",
         assumptions: vec!["observation = public accessors + byte hooks; opcode()/rcode() compared as the caller sees them (unnamed values show as Reserved)"],
         sections: vec![
             Box::new(ReplayOnly { name: "fuzz-bytes", check: check_raw }),
             Box::new(PropSection { name: "reference", rule: "reference encodings, foreign layouts", strategy, cases: (300_000, 4_000_000), check }),
             Box::new(PropSection { name: "large", rule: "suffix-sharing messages crossing 16 KiB", strategy: large_strategy, cases: (60_000, 600_000), check: check_large }),
             Box::new(EnumSection { name: "expanding", rule: "small compressed messages whose plain form exceeds 64 KiB", enumerate: enum_expanding, check: check_expanding, exhaustive: true }),
+            Box::new(EnumSection { name: "name-boundary", rule: "names of 250..=258 wire octets in every position", enumerate: enum_name_boundary, check: check_name_boundary, exhaustive: true }),
             Box::new(EnumSection { name: "words", rule: "all header words", enumerate: enum_words, check: check_word, exhaustive: true }),
             Box::new(PropSection { name: "mutated", rule: "accepted mutated encodings", strategy: super::c01::mutated_strategy, cases: (300_000, 4_000_000), check: check_mutated }),
         ],
@@ -250,6 +251,58 @@ fn check_expanding(input: &(u16, u8, bool), case: &mut Case) -> Result<(), Fail>
     let accepted = reserialise_oracle(&m, case)?;
     ensure!(accepted, "c11:expanding-rejected", "a well-formed compressed message of {} bytes ({} records under one {}-byte name) was rejected", m.len(), count, name_len);
     case.nontrivial = true;
+    Ok(())
+}
+
+/// messages holding a name of 250..=258 wire octets (5 label sizes) as question name, owner name and RDATA name,
+/// written in full and continued through a pointer: whatever the parser accepts must survive re-serialisation
+fn enum_name_boundary(_t: Tier, shard: usize, n: usize, f: &mut dyn FnMut((u16, u8, u8)) -> bool) {
+    let mut i = 0;
+    for wire in 250u16..=258 {
+        for lab in [63u8, 62, 40, 9, 1] {
+            for place in 0..4u8 {
+                i += 1;
+                if mine(i, shard, n) && !f((wire, lab, place)) {
+                    return;
+                }
+            }
+        }
+    }
+}
+
+fn check_name_boundary(input: &(u16, u8, u8), case: &mut Case) -> Result<(), Fail> {
+    let (wire_len, lab, place) = *input;
+    let mut labels: Vec<Bytes> = Vec::new();
+    let mut wire = 1usize;
+    while wire + lab as usize + 1 <= wire_len as usize {
+        labels.push(Bytes(vec![b'a' + (labels.len() % 26) as u8; lab as usize]));
+        wire += lab as usize + 1;
+    }
+    let rem = wire_len as usize - wire;
+    if rem >= 2 {
+        labels.push(Bytes(vec![b'z'; rem - 1]));
+    }
+    let long = AName(labels);
+    let short = AName::from_strs(&["s", "example"]);
+    let mut p = APacket { id: 0x2222, flags: 0x8400, ..Default::default() };
+    match place {
+        0 => p.questions.push(AQuestion { name: long.clone(), qtype: 1, qclass: 1, unicast: false }),
+        1 => p.answers.push(ARecord { name: long.clone(), class: 1, cache_flush: false, ttl: 1, rdata: ARData::Typed { code: 1, fields: vec![Val::U32(1)] } }),
+        2 => p.answers.push(ARecord { name: short.clone(), class: 1, cache_flush: false, ttl: 1, rdata: ARData::Typed { code: 5, fields: vec![Val::Name(long.clone())] } }),
+        _ => {
+            // the long name is reached through a pointer: its tail is the question name
+            let mut tail = long.clone();
+            tail.0.remove(0);
+            p.questions.push(AQuestion { name: tail, qtype: 1, qclass: 1, unicast: false });
+            p.answers.push(ARecord { name: long.clone(), class: 1, cache_flush: false, ttl: 1, rdata: ARData::Typed { code: 1, fields: vec![Val::U32(1)] } });
+        }
+    }
+    p.answers.push(ARecord { name: short, class: 1, cache_flush: false, ttl: 2, rdata: ARData::Typed { code: 1, fields: vec![Val::U32(2)] } });
+    let m = encode_message(&p, &if place == 3 { EncOpts::compressed() } else { EncOpts::plain() });
+    let accepted = reserialise_oracle(&m, case)?;
+    case.class(if accepted { "accepted" } else { "rejected" });
+    case.nontrivial = true;
+    ensure!(accepted || long.wire_len() > 255, "c11:boundary-rejected", "a message with a name of {} wire octets was rejected", long.wire_len());
     Ok(())
 }
 
